@@ -9,7 +9,7 @@ from eqsig import im
 from eqsig.fns import frequency as fr
 
 from pbt import core, gen
-from pbt.core import clause
+from pbt.core import clause, enum_clause
 
 PROPERTY = "C06"
 CLAUSES = []
@@ -307,3 +307,42 @@ def dominant_period(case, ctx):
     allowed = [math.inf if f[k] == 0 else 1.0 / f[k] for k in ok_bins]
     good = any((math.isinf(a_) and math.isinf(got)) or (not math.isinf(a_) and abs(got - a_) <= 1e-12 * a_) for a_ in allowed)
     ctx.check(good, "max_fa_period=%r but the largest-amplitude bin(s) %s have period(s) %s" % (got, ok_bins.tolist()[:4], allowed[:4]))
+
+
+# ---------------------------------------------------------------------------
+# lengths around large powers of two (thorough tier only: FFTs of up to 2^22 points)
+
+
+def _giant_enum(tier, shard, nshards):
+    i = 0
+    ks = range(14, 22) if tier == "thorough" else range(14, 17)
+    for k in ks:
+        for j in (-1, 0, 1, 2):
+            if i % nshards == shard:
+                yield {"k": k, "j": j}
+            i += 1
+
+
+@enum_clause(CLAUSES, "giant-lengths", _giant_enum,
+             rule="record lengths 2^k + j, j in {-1,0,1,2}, k = 14..16 (quick) / 14..21 (thorough, up to 2 097 154 samples): default padding, "
+                  "p2_plus=1 and the unpadded array-level variant",
+             oracle="reference model: N = next power of two >= npts (computed with integers), bins N/2 on k/(N dt); spectrum vs numpy.fft of the "
+                    "explicitly zero-padded record (1e-12*dt*sum|x|); object vs array level (exact)",
+             exhaustive_note="all listed lengths", quick_shards=2)
+def giant_lengths(case, ctx):
+    n = 2 ** case["k"] + case["j"]
+    dt = 0.005
+    x = np.random.RandomState(case["k"] * 7 + case["j"] + 3).standard_normal(n)
+    ctx.nt(True)
+    ctx.cls("j=%d" % case["j"])
+    sig = ctx.lib(eqsig.Signal, x, dt)
+    sumabs = float(np.sum(np.abs(x)))
+    N0 = next_pow2(n)
+    _check_spectrum(ctx, "Signal.fa_spectrum", ctx.lib(lambda: sig.fa_spectrum), ctx.lib(lambda: sig.fa_freqs), x, dt, N0, sumabs)
+    gs, gf = ctx.lib(fr.generate_fa_spectrum, sig)
+    ctx.equal(gs, sig.fa_spectrum, "generate_fa_spectrum vs object (npts=%d)" % n)
+    ctx.equal(gf, sig.fa_freqs, "generate_fa_spectrum frequencies vs object (npts=%d)" % n)
+    ctx.lib(sig.gen_fa_spectrum, p2_plus=1)
+    _check_spectrum(ctx, "gen_fa_spectrum(p2_plus=1)", sig.fa_spectrum, sig.fa_freqs, x, dt, 2 * N0, sumabs)
+    us, uf = ctx.lib(fr.calc_fa_spectrum, sig)
+    _check_spectrum(ctx, "calc_fa_spectrum (unpadded)", us, uf, x, dt, n, sumabs)
